@@ -1,12 +1,14 @@
 // c12: drives the real formattedstore.FormattedProvider with the real edv.EncryptedFormatter (own KMS, real JWE
 // encrypter/decrypter, real HMAC; deterministic and random document ids) over a RECORDING provider and inspects every
 // argument of every call the underlying provider receives:
-//   (a) direct oracle: no application key / value / tag name / tag value in raw, base64 (std/url, padded/raw), base58
-//       or hex form, also after decoding every base64/base58/hex looking run of the argument (two levels deep);
-//       every stored document opens with the configured key and with no other; two stored documents never share a
-//       ciphertext; a stored document has only the fields of an EDV encrypted document;
-//   (b) each argument is abstracted to a symbolic term (MAC outputs recognised by recomputing them with the MAC key,
-//       documents parsed and decrypted) and the per-operation call log is compared in Coq with the model of coq/C12.
+//
+//	(a) direct oracle: no application key / value / tag name / tag value in raw, base64 (std/url, padded/raw), base58
+//	    or hex form, also after decoding every base64/base58/hex looking run of the argument (two levels deep);
+//	    every stored document opens with the configured key and with no other; two stored documents never share a
+//	    ciphertext; a stored document has only the fields of an EDV encrypted document;
+//	(b) each argument is abstracted to a symbolic term (MAC outputs recognised by recomputing them with the MAC key,
+//	    documents parsed and decrypted) and the per-operation call log is compared in Coq with the model of coq/C12.
+//
 // The operation alphabet and the generators follow harness/c11 (a main package cannot be imported, so the small
 // printers are repeated here); store configuration operations are added.
 package main
@@ -145,7 +147,7 @@ type BOp struct {
 
 // Op is one step of a case.
 type Op struct {
-	Kind string `json:"op"` // put get tags bulk query delete batch flush reopen setcfg getcfg
+	Kind string `json:"op"` // put get tags bulk query querysort delete batch flush reopen setcfg getcfg
 	K    int    `json:"k,omitempty"`
 	V    int    `json:"v,omitempty"`
 	T    []Tag  `json:"t,omitempty"`
@@ -153,6 +155,7 @@ type Op struct {
 	Q    []Tag  `json:"q,omitempty"`
 	B    []BOp  `json:"b,omitempty"`
 	N    []int  `json:"n,omitempty"` // setcfg: tag names
+	S    int    `json:"s,omitempty"` // querysort: tag name of the sort option
 }
 
 // Res is one entry of a query result.
@@ -400,17 +403,19 @@ func exprParts(q []Tag) (strs, terms []string) {
 // ---------- one running case ----------
 
 type world struct {
-	cf    *conf
-	det   bool
-	rec   *hx.RecProvider
-	top   *formattedstore.FormattedProvider
-	store spi.Store
-	tab   map[string]string // per case: cf.recog + conjunction parts + random ids + unknowns
-	nRnd  int
-	nUnk  int
-	ceks  map[string]int    // JWE ciphertext -> number
-	plain map[string]string // JWE ciphertext -> plaintext it decrypts to
-	fails []failure
+	cf     *conf
+	det    bool
+	rec    *hx.RecProvider
+	spy    *optSpy
+	top    *formattedstore.FormattedProvider
+	store  spi.Store
+	tab    map[string]string // per case: cf.recog + conjunction parts + random ids + unknowns
+	nRnd   int
+	nQuery int
+	nUnk   int
+	ceks   map[string]int    // JWE ciphertext -> number
+	plain  map[string]string // JWE ciphertext -> plaintext it decrypts to
+	fails  []failure
 }
 
 type failure struct{ sig, detail string }
@@ -431,11 +436,12 @@ func newWorld(c Case) (*world, error) {
 	}
 
 	w := &world{cf: confs[c.Fmt], det: c.Det, tab: map[string]string{}, ceks: map[string]int{}, plain: map[string]string{}}
-	w.rec = hx.NewRecProvider(mem.NewProvider())
+	w.spy = &optSpy{Provider: mem.NewProvider()}
+	w.rec = hx.NewRecProvider(w.spy)
 	w.top = formattedstore.NewProvider(w.rec, w.cf.formatter(c.Det))
 
 	for _, o := range c.Ops {
-		if o.Kind == "query" && len(o.Q) > 1 {
+		if (o.Kind == "query" || o.Kind == "querysort") && len(o.Q) > 1 {
 			ss, ts := exprParts(o.Q)
 			for i := range ss {
 				w.cf.addMacs(w.tab, ss[i], ts[i])
@@ -577,6 +583,16 @@ func (w *world) exec(o Op) (out Out) {
 		sort.SliceStable(r.R, func(i, j int) bool { return r.R[i].K < r.R[j].K })
 
 		return r
+	case "querysort":
+		it, err := s.Query(exprStr(o.Q), spi.WithPageSize(2),
+			spi.WithSortOrder(&spi.SortOptions{Order: spi.SortDescending, TagName: nameS[o.S]}))
+		if err != nil {
+			return errOut(err)
+		}
+
+		_ = it.Close()
+
+		return Out{Kind: "done"}
 	case "delete":
 		if err := s.Delete(keyStr(o.K)); err != nil {
 			return errOut(err)
@@ -1038,12 +1054,26 @@ func (w *world) call(c hx.Call) (string, bool) {
 	case "Query":
 		w.scan(c.Op, "expression", []byte(c.Expr))
 
-		p := strings.SplitN(c.Expr, ":", 2)
-		if len(p) == 1 {
-			return "CQuery " + s + " " + w.str(p[0]) + " None", true
+		sort := ""
+		if w.nQuery < len(w.spy.sorts) && !c.Inject {
+			sort = w.spy.sorts[w.nQuery]
+			w.nQuery++
 		}
 
-		return "CQuery " + s + " " + w.str(p[0]) + " (Some " + w.str(p[1]) + ")", true
+		p := strings.SplitN(c.Expr, ":", 2)
+		v := "None"
+
+		if len(p) == 2 {
+			v = "(Some " + w.str(p[1]) + ")"
+		}
+
+		if sort != "" {
+			w.scan(c.Op, "sort option tag name", []byte(sort))
+
+			return "CQuerySort " + s + " " + w.str(p[0]) + " " + v + " " + w.str(sort), true
+		}
+
+		return "CQuery " + s + " " + w.str(p[0]) + " " + v, true
 	case "Batch":
 		ops := make([]string, len(c.Ops))
 
@@ -1106,6 +1136,8 @@ func coqOp(o Op) string {
 		return "XS (GetBulk " + coqNs(o.Ks) + ")"
 	case "query":
 		return "XS (Query " + coqTags(o.Q) + ")"
+	case "querysort":
+		return fmt.Sprintf("XQuerySort %s %d", coqTags(o.Q), o.S)
 	case "delete":
 		return fmt.Sprintf("XS (Delete %d)", o.K)
 	case "batch":
@@ -1332,8 +1364,10 @@ func randOp(r *hx.Rng) Op {
 		return Op{Kind: "flush"}
 	case x < 91:
 		return Op{Kind: "reopen"}
-	case x < 97:
+	case x < 95:
 		return Op{Kind: "setcfg", N: cfgSets[r.Intn(len(cfgSets))]}
+	case x < 98:
+		return Op{Kind: "querysort", Q: queries[r.Intn(len(queries))], S: 1 + r.Intn(3)}
 	}
 
 	return Op{Kind: "getcfg"}
@@ -1408,6 +1442,7 @@ func exhaustive(depth int, tr *hx.Trace, rng *hx.Rng) {
 		{Kind: "delete", K: 1},
 		{Kind: "query", Q: []Tag{{1, 0}}},
 		{Kind: "query", Q: []Tag{{1, 1}}},
+		{Kind: "querysort", Q: []Tag{{1, 1}}, S: 2},
 		{Kind: "batch", B: []BOp{{K: 1, V: 3, T: []Tag{{2, 2}}}, {K: 1, T: []Tag{{1, 1}}}, {K: 1, V: 1}}},
 		{Kind: "batch", B: []BOp{{K: 2}, {K: 1, V: 1, T: []Tag{{1, 2}}}}},
 		{Kind: "reopen"},
@@ -1492,9 +1527,9 @@ func main() {
 	rng := hx.NewRng(args.Seed)
 	thorough := args.Tier == "thorough"
 
-	exDepth, nRandom := 2, 500
+	exDepth, nRandom := 2, 2500
 	if thorough {
-		exDepth, nRandom = 3, 6000
+		exDepth, nRandom = 3, 20000
 	}
 
 	exhaustive(exDepth, tr, rng)
